@@ -3,7 +3,12 @@ from vf.props import reg, COMMON_ASSUMPTIONS
 
 reg(Prop(
     'C01',
-    [Harness('c01_total', libs=('options', 'filesystem', 'core'), parts=16, slices=14, thorough_cfg='asan1')],
+    [Harness('c01_total', libs=('options', 'filesystem', 'core'), parts=16, slices=14, thorough_cfg='asan1'),
+     # thorough only: the quick workload once more without sanitizer instrumentation under valgrind memcheck. The standard
+     # library (libstdc++.so: filesystem, iostream, codecvt) is not ASan-instrumented, so a bad length or a torn buffer that
+     # fcppt hands to it is invisible to the first harness; memcheck watches those frames too.
+     Harness('c01_total_memcheck', src=['c01_total.cpp'], cfg='plain', runner='valgrind', tiers=('thorough',),
+             libs=('options', 'filesystem', 'core'), parts=16, slices=14, run_tier='quick', alarm=900)],
     rule='One registry entry per function x instantiation (math::{log2,next_power_of_2,is_power_of_2,ceil_div,ceil_div_signed,'
          'div,mod,clamp,diff,power_of_2,interval_distance}, cast::truncation_check (64 pairs), enum_::{from_int,from_string}, '
          'container::{at_optional,maybe_front,maybe_back,pop_back,pop_front,find_opt,find_opt_mapped}, grid::at_optional, '
